@@ -67,7 +67,7 @@ def run_kani(scratch, harnesses, jobs, timeout_s, mem_gb, extra, tag):
     cmd = list(KANI_BASE)
     for h in harnesses:
         cmd += ["--harness", h]
-    cmd += ["--exact"] if False else []
+    cmd += ["--exact"]  # fully qualified names: `c16_read` must not also select `c16_readv`
     cmd += ["-j", str(jobs), "--harness-timeout", f"{timeout_s}s", "--export-json", out_json,
             "--target-dir", os.path.join(scratch, "target")]
     cmd += extra
@@ -94,6 +94,19 @@ def run_kani(scratch, harnesses, jobs, timeout_s, mem_gb, extra, tag):
         except Exception:
             data = None
     return data, text, wall, rc
+
+
+def qualify(mounts, harness):
+    """Fully qualified harness name (module path of the mount whose file defines it)."""
+    hits = []
+    for hfile, target in mounts:
+        txt = open(os.path.join(prep.HARNESS, hfile), encoding="utf-8").read()
+        if re.search(r"\b" + re.escape(harness) + r"\b", txt):
+            mod = target[:-len("/mod.rs")] if target.endswith("/mod.rs") else target[:-len(".rs")]
+            hits.append(mod.replace("/", "::") + "::verif_" + os.path.splitext(hfile)[0] + "::" + harness)
+    if len(hits) != 1:
+        raise prep.InfraError(f"harness {harness}: defined in {len(hits)} mounted files (expected 1)")
+    return hits[0]
 
 
 def analyse(data, text, wanted):
@@ -195,7 +208,8 @@ def main(argv):
             extra = list(g.get("kani_args", []))
             log(f"[{pid}] group {gi + 1}/{len(groups)}: {len(harnesses)} harness(es), tier={args.tier}, "
                 f"timeout={timeout_s}s/harness, jobs={jobs}")
-            data, text, wall, rc = run_kani(scratch, harnesses, jobs, timeout_s, g.get("mem_gb", 20), extra, f"g{gi}")
+            qualified = [qualify(g["mounts"], h) for h in harnesses]
+            data, text, wall, rc = run_kani(scratch, qualified, jobs, timeout_s, g.get("mem_gb", 20), extra, f"g{gi}")
             res = analyse(data, text, harnesses)
             v = sat_size(text)
             if v[0] > max_sat[0]:
@@ -208,6 +222,10 @@ def main(argv):
             if data is not None and missing:
                 infra.append(f"harnesses not reported (filter matched nothing or crash): {missing}")
                 log(f"INFRA: harnesses not reported: {missing}")
+            for h, r in sorted(res.items()):
+                st_ = r.get("stats") or {}
+                log(f"  {h}: {r['status']} checks={r['n_checks']} failed={len(r['failed'])} "
+                    f"symex={st_.get('runtime_symex_s')}s solver={st_.get('runtime_solver_s')}s total={r.get('duration_ms')}ms")
             for h, r in res.items():
                 r["group"] = gi
                 r["bounds"] = g.get("bounds", "")
@@ -219,7 +237,7 @@ def main(argv):
                 unexplained = [f for f in r["failed"]
                                if not any(k["harness"] == h and k["check"] in f["description"] for k in known)]
                 if unexplained and g.get("playback", True):
-                    r["playback"] = extract_playback(scratch, h, extra, timeout_s, g.get("mem_gb", 20))
+                    r["playback"] = extract_playback(scratch, r["id"], extra, timeout_s, g.get("mem_gb", 20))
         finally:
             if not args.keep:
                 shutil.rmtree(scratch, ignore_errors=True)
@@ -303,7 +321,7 @@ def extract_playback(scratch, harness, extra, timeout_s, mem_gb):
     cmd = [c for c in KANI_BASE if c != "terse"]
     cmd = cmd[:-1] if cmd[-1] == "--output-format" else cmd
     cmd = [c for c in cmd]
-    cmd += ["--harness", harness, "-Z", "concrete-playback", "--concrete-playback=print",
+    cmd += ["--harness", harness, "--exact", "-Z", "concrete-playback", "--concrete-playback=print",
             "--target-dir", os.path.join(scratch, "target")] + extra
     env = dict(os.environ)
     env.update({"CARGO_NET_OFFLINE": "true", "RUSTFLAGS": "--cap-lints=allow", "CARGO_TERM_COLOR": "never"})
